@@ -31,9 +31,15 @@ def gen_case(rng):
     victim = rng.choice(names)
     t1 = rng.randint(1 * SEC, 6 * SEC)
     if kind == 'die':
-        # a consumer that is NOT declared required dies for ever: pick a sink, drop it from its publisher's required list
-        sinks = [nd for nd in topo['nodes'] if not nd['out']]
-        victim = rng.choice(sinks)['name']
+        # a consumer that is NOT declared required dies for ever while its publisher has other live consumers (tee: one branch)
+        topo = pipeline.gen_topology(rng, family='tee', c03=True, nframes=10**9)
+        for nd in topo['nodes']:
+            nd['beh'].pop('skip', None); nd['beh'].pop('empty', None)
+            nd['work'] = rng.choice([0, 0, 5, 30, 120])
+        topo['nodes'][0]['work'] = rng.choice([50, 100, 200])
+        topo['max_delay_ms'] = rng.choice([0, 5, 20, 60])
+        branches = [nd['name'] for nd in topo['nodes'] if nd['name'].startswith('A')]
+        victim = rng.choice(branches)
         for nd in topo['nodes']:
             if victim in nd.get('required', []): nd['required'] = [x for x in nd['required'] if x != victim]
         faults = [{'t': t1, 'kind': 'kill', 'node': victim}]
@@ -54,14 +60,19 @@ def run_case(case):
     horizon = (case['t_end'] + 16 * SEC) / SEC
     net, objs, _ = pipeline.run_topology(topo, case['net_seed'], horizon_s=horizon, faults=case['faults'])
     v = []
-    dead = {case['victim']} if case['kind'] == 'die' else set()
+    dead = set()
+    if case['kind'] == 'die':      # the dead branch and whatever only it feeds are excluded: nothing can flow there
+        dead = {case['victim']}
+        changed = True
+        while changed:
+            changed = False
+            for nd in topo['nodes']:
+                if nd['name'] not in dead and nd['sources'] and any(s.split(';')[0].rstrip('?')[len('ipc://'):] in dead for s in nd['sources']):
+                    dead.add(nd['name']); changed = True
     flowing_before = any(any(t < case['faults'][0]['t'] for t in objs[nd['name']].log_t) for nd in topo['nodes'] if not nd['out'])
     for nd in topo['nodes']:
         if nd['out'] or nd['name'] in dead: continue
         o = objs[nd['name']]
-        if case['kind'] == 'die':
-            # sinks fed by the same publisher as the dead one must keep receiving
-            pass
         after = [t for t in o.log_t if t > case['t_end']]
         if not after:
             v.append((f"no-recovery:{case['kind']}", f"sink {nd['name']} got no frame in the 16 s after the fault on {case['victim']} ended (t_end={case['t_end'] / SEC:.1f}s)"))
